@@ -269,8 +269,9 @@ class Meter:
     """counts Python function entries ('call' events), the maximum stack depth, and normal returns of the inner decoder entry points.
     Uses sys.monitoring (cheaper: no builtin-call events); falls back to sys.setprofile when the tool id is taken."""
 
-    def __init__(self, budget: int = 0) -> None:
+    def __init__(self, budget: int = 0, light: bool = False) -> None:
         self.budget = budget  # function entries after which the run is abandoned (0 = never)
+        self.light = light  # count the function entries only (1.5x instead of 2.5x the plain cost): no depth, no inner-object count
         self.calls = 0
         self.depth = 0
         self.max_depth = 0
@@ -299,6 +300,11 @@ class Meter:
                 self._note_recursion(frame_getter())
 
     # -- sys.monitoring callbacks
+    def _count(self, code, offset) -> None:
+        self.calls += 1
+        if self.budget and self.calls > self.budget:
+            raise WorkBudget()
+
     def _start(self, code, offset) -> None:
         self._enter(lambda: sys._getframe(2))
 
@@ -336,6 +342,17 @@ class Meter:
             finally:
                 sys.setprofile(previous)
         ev = mon.events
+        if self.light:
+            mon.register_callback(tool, ev.PY_START, self._count)
+            mon.register_callback(tool, ev.PY_RESUME, self._count)
+            mon.set_events(tool, ev.PY_START | ev.PY_RESUME)
+            try:
+                return fn(*args)
+            finally:
+                mon.set_events(tool, 0)
+                mon.register_callback(tool, ev.PY_START, None)
+                mon.register_callback(tool, ev.PY_RESUME, None)
+                mon.free_tool_id(tool)
         mon.register_callback(tool, ev.PY_START, self._start)
         mon.register_callback(tool, ev.PY_RESUME, self._start)
         mon.register_callback(tool, ev.PY_RETURN, self._return)
@@ -351,9 +368,9 @@ class Meter:
             mon.free_tool_id(tool)
 
 
-def measured(msg_type: int, body: bytes, negotiated) -> tuple:
+def measured(msg_type: int, body: bytes, negotiated, light: bool = False) -> tuple:
     """(outcome, meter); a run that spends six times its work bound is abandoned: that is how a loop that never ends is reported"""
-    meter = Meter(budget=6 * (COST_A + COST_B * len(body)))
+    meter = Meter(budget=6 * (COST_A + COST_B * len(body)), light=light)
     try:
         outcome = meter.run(decode_and_force, msg_type, body, negotiated)
     except WorkBudget:
@@ -370,7 +387,7 @@ DEPTH_MAX = 120
 def cost_violation(meter: Meter, size: int) -> tuple | None:
     if meter.calls > COST_A + COST_B * size:
         return ('violation', 'cost:calls-superlinear', f'{meter.calls} Python calls for a {size} byte body (bound {COST_A}+{COST_B}*len)')
-    if meter.max_depth > DEPTH_MAX:
+    if not meter.light and meter.max_depth > DEPTH_MAX:
         return ('violation', f'unbounded-recursion@{meter.deep}', f'stack depth {meter.max_depth} for a {size} byte body (bound {DEPTH_MAX}): one frame per TLV')
     return None
 
